@@ -2,7 +2,7 @@ import features
 import behaviours
 
 STREAM_A = behaviours.stream_hook("MC_Stream", {"quick": "MC_Stream_q", "thorough": "MC_Stream_t"})
-NEG_STREAM = [("MC_Stream", "NEG_Stream_" + v) for v in ("insert_before_read", "key_by_start", "no_seek", "read_not_exact", "no_length_guard", "eager_read")]
+NEG_STREAM = [("MC_Stream", "NEG_Stream_" + v) for v in ("insert_before_read", "key_by_start", "no_seek", "read_not_exact", "no_length_guard", "eager_read", "lazy_seek")]
 """Per-property recipes: which bounded instances are model-checked and replayed (direction A),
 which generator families are recorded and trace-validated (direction B), and which rejection
 reasons count for the property."""
@@ -209,9 +209,10 @@ RECIPES = {
     },
     "C17": {
         "custom": [STREAM_A],
-        "neg": {"quick": [NEG_STREAM[0]]},
+        "neg": {"quick": [NEG_STREAM[0], NEG_STREAM[6]]},
+        "mc": {"quick": [("MC_Stream", "LIVE_Stream", 4)], "thorough": [("MC_Stream", "LIVE_Stream", 4)]},
         "level": "fault_enumeration",
-        "families": {"quick": [("sfault", 3, 4)], "thorough": [("sfaultall", 3, 10), ("sfault", 20, 4)]},
+        "families": {"quick": [("sfault", 3, 4)], "thorough": [("sfaultall", 1, 12), ("sfault", 20, 4)]},
         "reasons": ("value", "panic"),
         "tags": SQ_ALL,
         "rule": "B: per generated object a fault-free pass fixes the accessor script and counts the I/O calls n; then one session "
